@@ -7,6 +7,7 @@
 //   l1n <fn> <flag> <ax> <dx>                       nullary L1 function (adjusts, cbw, cwd)
 //   run <14 regs> <npokes> (<addr> <val>)* <nlabels> (<name> <map>)* | <instruction line>
 //        -> outcome, 14 regs, then the poked cells and their successors
+//   asm <source text, "\\n" for a line break>        the real assembler on that text -> emitted code / data lines or the diagnostic
 //   dump cells: after `run`, `cells <addr>*` are appended to the same request:  ... ; <addr>*
 #[path = "../../spec/i8086_spec.rs"]
 mod spec;
@@ -258,6 +259,40 @@ fn run(req: &str) -> String {
     })
 }
 
+fn jstr(s: &str) -> String {
+    let mut o = String::from("\"");
+    for c in s.chars() {
+        match c {
+            '"' => o.push_str("\\\""),
+            '\\' => o.push_str("\\\\"),
+            '\n' => o.push_str("\\n"),
+            '\t' => o.push_str("\\t"),
+            c if (c as u32) < 0x20 => o.push_str(&format!("\\u{:04x}", c as u32)),
+            c => o.push(c),
+        }
+    }
+    o.push('"');
+    o
+}
+
+/// the real assembler on a source text: what it emitted (or its diagnostic)
+fn asm(rest: &str) -> String {
+    let src = rest.trim().replace("\\n", "\n");
+    catch(move || {
+        let mut ctx = lib::PreprocessorContext::default();
+        let mut out = lib::PreprocessorOutput::default();
+        let p = lib::Preprocessor::new();
+        match p.parse(&mut ctx, &mut out, &src) {
+            Ok(_) => format!(
+                "{{\"ok\":true,\"code\":[{}],\"data\":[{}]}}",
+                out.code.iter().map(|x| jstr(x)).collect::<Vec<_>>().join(","),
+                out.data.iter().map(|x| jstr(x)).collect::<Vec<_>>().join(",")
+            ),
+            Err(e) => format!("{{\"ok\":false,\"diagnostic\":{}}}", jstr(&format!("{}", e))),
+        }
+    })
+}
+
 fn main() {
     std::panic::set_hook(Box::new(|_| {}));
     let stdin = std::io::stdin();
@@ -275,6 +310,7 @@ fn main() {
             "l1u" => { let (f, a, b, c, d) = (t[0].clone(), n(1), n(2), n(3), n(4)); catch(move || l1u(&f, a, b, c, d)) }
             "l1n" => { let (f, a, b, c) = (t[0].clone(), n(1), n(2), n(3)); catch(move || l1n(&f, a, b, c)) }
             "run" => run(rest),
+            "asm" => asm(rest),
             _ => "{\"error\":\"unknown command\"}".to_string(),
         };
         println!("{}", out);
